@@ -61,6 +61,27 @@ def path_case(draw, defaults=False):
     return {"spec": s, "path": pa, "nan_after": nan_after}
 
 
+@st.composite
+def grouped_path_case(draw):
+    """paths of models with at least one multi-feature group (the one-hot use case), many steps: the feature count and the
+    number of penalised variables differ"""
+    c = draw(path_case())
+    s = c["spec"]
+    d = s["d"] = s["x"]["d"] = draw(st.integers(4, 6))
+    perm = draw(st.permutations(range(d)))
+    size = draw(st.integers(2, 3))
+    groups = [[int(i) for i in perm[:size]]]
+    if draw(st.booleans()) and d - size >= 2:
+        groups.append([int(i) for i in perm[size:size + 2]])
+    s["groups"] = groups
+    s["alpha"] = draw(st.sampled_from([0.05, 0.1, 0.2, 0.02]))
+    c["path"]["alpha_multiplier"] = draw(st.sampled_from([1.5, 1.2, 2.0]))
+    c["path"]["keep_threshold"] = draw(st.sampled_from([0.9, 0.8, 0.99, 0.5]))
+    c["path"]["min_features"] = draw(st.sampled_from([1, 2]))
+    c["nan_after"] = None
+    return c
+
+
 def poison(est, limit):
     """From the `limit`-th score-only evaluation made while a penalty is in force, the objective of `est` reports NaN (what
     an overflowing kernel or a user-written GEMINI does); gradients and affinities are untouched."""
@@ -239,5 +260,6 @@ def oracle_defaults(case):
 
 
 def subs():
-    return [Sub("contract", path_case(), oracle_path, 700, 12000, "termination, histories, best weights, restoration"),
+    return [Sub("contract_grouped", grouped_path_case(), oracle_path, 300, 6000, "the same contract with multi-feature groups and long paths"),
+            Sub("contract", path_case(), oracle_path, 700, 12000, "termination, histories, best weights, restoration"),
             Sub("defaults", path_case(defaults=True), oracle_defaults, 60, 800, "out-of-range arguments == documented defaults")]
